@@ -1,2 +1,79 @@
-(* Props/C10.v — placeholder, theorems added in a later commit *)
-From NIR Require Import Model.Graph.
+(* Props/C10.v — Inference terminates and is non-destructive on every topology. *)
+From NIR Require Import Model.Graph Proofs.InferProofs.
+
+(* TERMINATION on every directed multigraph (cycles, self-loops, parallel edges, fan-in/out, unreachable
+   components, any edge order): some fuel always suffices ... *)
+Theorem c10_terminates : forall ch es,
+  exists fuel, snd (run fuel es (init_state ch es)) <> Raised OutOfFuel.
+Proof. exact infer_terminates. Qed.
+
+(* ... in fact the quadratic bound the model evaluates with always suffices, so "out of fuel" can never
+   masquerade as a result of infer_types (LIFO stack invariant) ... *)
+Theorem c10_fuel_bound : forall ch es,
+  snd (run (infer_fuel ch es) es (init_state ch es)) <> Raised OutOfFuel.
+Proof. exact infer_fuel_suffices. Qed.
+
+(* ... and more fuel never changes the result *)
+Theorem c10_fuel_irrelevant : forall fuel es st, snd (run fuel es st) <> Raised OutOfFuel ->
+  forall fuel', (fuel <= fuel')%nat -> run fuel' es st = run fuel es st.
+Proof. exact run_fuel_mono. Qed.
+
+(* NON-DESTRUCTIVE: one loop iteration keeps the target's kind; its fields stay exactly as they were
+   (metadata and parameter arrays included) except that a Conv1d/Conv2d may get input_shape assigned;
+   a nested graph is never modified *)
+Theorem c10_step_frame : forall pre post post' ex, apply_edge pre post = (post', ex) ->
+  node_kind post' = node_kind post /\
+  (node_fields post' = node_fields post \/
+   exists v, (node_kind post = KConv1d \/ node_kind post = KConv2d) /\
+             node_fields post' = assoc_set "input_shape" v (node_fields post)) /\
+  (is_graph post = true -> post' = post).
+Proof. exact apply_edge_frame. Qed.
+
+(* names and order of the children never change *)
+Theorem c10_names : forall fuel es st, map fst (st_ch (fst (run fuel es st))) = map fst (st_ch st).
+Proof. exact run_names. Qed.
+
+(* for the whole run, every child: same kind; every field other than a Conv's input_shape unchanged *)
+Theorem c10_frame : forall fuel es st k n, assoc k (st_ch st) = Some n ->
+  exists n', assoc k (st_ch (fst (run fuel es st))) = Some n' /\
+    node_kind n' = node_kind n /\
+    (node_fields n' = node_fields n \/
+     exists v, (node_kind n = KConv1d \/ node_kind n = KConv2d) /\
+               node_fields n' = assoc_set "input_shape" v (node_fields n)) /\
+    (forall f, f <> "input_shape" -> assoc f (node_fields n') = assoc f (node_fields n)) /\
+    (node_kind n <> KConv1d -> node_kind n <> KConv2d -> node_fields n' = node_fields n) /\
+    (map fst (node_fields n') = map fst (node_fields n) \/
+     (assoc "input_shape" (node_fields n) = None /\
+      map fst (node_fields n') = map fst (node_fields n) ++ ["input_shape"])) /\
+    (is_graph n = true -> n' = n).
+Proof. exact run_frame. Qed.
+
+(* a child that is not the target of any edge is not touched at all *)
+Theorem c10_untouched_partial : forall fuel es st k, incl (st_ready st) es -> ~ In k (map snd es) ->
+  assoc k (st_ch (fst (run fuel es st))) = assoc k (st_ch st).
+Proof. exact run_untouched. Qed.
+(* (PARTIAL with respect to the property's "touches no node that is not reachable from an Input": proved
+   for children that are no edge target; for unreachable edge targets it is checked on the code by the
+   harness.  Likewise "a second run changes nothing" is checked by correspondence (CInfer2) and oracle,
+   not proved.) *)
+
+(* edge list, graph metadata, child names and order are unchanged by infer_types, also when it raises *)
+Theorem c10_graph_frame : forall ch es gi go m g' oc, infer_types (Graph ch es gi go m) = (g', oc) ->
+  exists ch' gi' go', g' = Graph ch' es gi' go' m /\ map fst ch' = map fst ch.
+Proof. exact infer_types_frame. Qed.
+
+(* non-vacuity: a two-node cycle with a self-loop and a parallel edge terminates within the bound *)
+Example c10_example :
+  let i := Leaf KInput [] (Some [("input", TArr [2])]) (Some [("output", TArr [2])]) in
+  let s := Leaf KScale [] (Some [("input", TArr [2])]) (Some [("output", TArr [2])]) in
+  snd (infer_types (mk_graph [("i", i); ("s", s)] [("i", "s"); ("s", "s"); ("s", "i"); ("i", "s")] (VDict []))) = Finished.
+Proof. vm_compute. reflexivity. Qed.
+
+Print Assumptions c10_terminates.
+Print Assumptions c10_fuel_bound.
+Print Assumptions c10_fuel_irrelevant.
+Print Assumptions c10_step_frame.
+Print Assumptions c10_names.
+Print Assumptions c10_frame.
+Print Assumptions c10_untouched_partial.
+Print Assumptions c10_graph_frame.
